@@ -47,12 +47,13 @@ func C06Config(prop string, r *Rand, tier string) map[string]int64 {
 	c["w_time"] = int64(r.Range(8, 25))
 	c["w_rpcfault"] = int64(r.Range(0, 8))
 	c["w_crash"] = int64(r.Range(0, 4))
+	c["w_crashat"] = int64(r.Range(0, 5))
 	c["sub_first"] = 0 // restart order: 0 = Start then Subscribe; 1 = Subscribe then Start (both exist in cmd/run.go's race)
 	if r.Bool(30) {
 		c["sub_first"] = 1
 	}
 	if r.Bool(15) {
-		c["w_rpcfault"], c["w_crash"] = 0, 0
+		c["w_rpcfault"], c["w_crash"], c["w_crashat"] = 0, 0, 0
 	}
 	return c
 }
@@ -136,6 +137,7 @@ func runC06(tr *Trace, sc *Script, rec *Recorder, scratch string) *Violation {
 			repeatDelivered[num] = true
 		}
 	}
+	reorgEventsAtStart := int64(0)
 	start := func(subFirst bool) *Violation {
 		w.BeginSetup()
 		defer w.EndSetup()
@@ -171,6 +173,11 @@ func runC06(tr *Trace, sc *Script, rec *Recorder, scratch string) *Violation {
 		vp := l1infotreesync.VerifProcessorOf(n.syncer)
 		n.store = &L1Store{path: storePath, P: vp, F: n.syncer}
 		node = n
+		reorgEventsAtStart = 0
+		if db, err := sql.Open("sqlite3", "file:"+rdPath+"?mode=ro"); err == nil {
+			_ = db.QueryRow("SELECT COALESCE(MAX(rowid),0) FROM reorg_event").Scan(&reorgEventsAtStart)
+			db.Close()
+		}
 		return nil
 	}
 	stop := func() {
@@ -190,6 +197,10 @@ func runC06(tr *Trace, sc *Script, rec *Recorder, scratch string) *Violation {
 	defer func() { stop() }()
 
 	stored := func() ([]storedBlock, error) {
+		// the harness's own reads are not statements of the node: they do not count towards an armed crash point
+		if p := DisarmFault(storePath); p != nil {
+			defer ArmFault(storePath, p)
+		}
 		rows, err := node.store.P.DB().Query("SELECT num, hash FROM block ORDER BY num")
 		if err != nil {
 			return nil, err
@@ -212,6 +223,7 @@ func runC06(tr *Trace, sc *Script, rec *Recorder, scratch string) *Violation {
 	}
 
 	var prevStored []storedBlock
+	var trackedAtCrash []storedBlock
 	replacedEver := false
 	// oracle (a): a stored block that is still canonical must never disappear
 	checkStored := func(ctx string) *Violation {
@@ -226,6 +238,11 @@ func runC06(tr *Trace, sc *Script, rec *Recorder, scratch string) *Violation {
 		// a rewind is justified only by a processed block that is no longer canonical
 		justified := false
 		for _, s := range prevStored {
+			if s.Num != 0 && !chain.IsCanonical(s.Num, s.Hash) {
+				justified = true
+			}
+		}
+		for _, s := range trackedAtCrash {
 			if s.Num != 0 && !chain.IsCanonical(s.Num, s.Hash) {
 				justified = true
 			}
@@ -251,9 +268,32 @@ func runC06(tr *Trace, sc *Script, rec *Recorder, scratch string) *Violation {
 	density := int(cfg["density"])
 	crashed := false
 	maxHead := uint64(0)
+	// crash images: the node dies at the instant one of its two databases is about to run its k-th statement
+	// (in the middle of a transaction too); what both files held at that instant is all that survives
+	imgDir := filepath.Join(dir, "crashimg")
+	imgTaken, imgArmed := false, ""
+	takeImage := func() {
+		os.RemoveAll(imgDir)
+		_ = CopyDBFiles(storePath, filepath.Join(imgDir, filepath.Base(storePath)))
+		_ = CopyDBFiles(rdPath, filepath.Join(imgDir, filepath.Base(rdPath)))
+		imgTaken = true
+	}
 	gen := func(r *Rand) (Op, bool) {
 		labels := w.ParkedLabels()
-		wts := []int{int(cfg["w_mine"]), int(cfg["w_fork"]), int(cfg["w_fin"]), int(cfg["w_rel"]), int(cfg["w_time"]), int(cfg["w_rpcfault"]), int(cfg["w_crash"])}
+		wts := []int{int(cfg["w_mine"]), int(cfg["w_fork"]), int(cfg["w_fin"]), int(cfg["w_rel"]), int(cfg["w_time"]), int(cfg["w_rpcfault"]), int(cfg["w_crash"]), int(cfg["w_crashat"])}
+		if imgArmed != "" {
+			wts[7] = 0
+		} else {
+			// a reorg of processed blocks is waiting to be noticed and handled: the interesting moment to die
+			for _, sb := range prevStored {
+				if sb.Num != 0 && !chain.IsCanonical(sb.Num, sb.Hash) {
+					if wts[7] > 0 {
+						wts[7] = wts[7]*6 + 6
+					}
+					break
+				}
+			}
+		}
 		if len(labels) == 0 {
 			wts[3], wts[5] = 0, 0
 			wts[4] += 30
@@ -286,13 +326,63 @@ func runC06(tr *Trace, sc *Script, rec *Recorder, scratch string) *Violation {
 				fm = replyDeadline
 			}
 			return Op{K: "rel", S: labels[r.Intn(len(labels))], A: []int64{fm}}, true
+		case 7:
+			k := 1 + r.Intn(8)
+			if r.Bool(30) {
+				k = 1 + r.Intn(40)
+			}
+			which := int64(r.Intn(2))
+			if r.Bool(35) {
+				which, k = 2, 1+r.Intn(3) // at the k-th DELETE of the syncer's database: a rewind in progress
+			}
+			return Op{K: "crashat", A: []int64{which, int64(k), cfg["sub_first"]}}, true
 		default:
 			return Op{K: "crash", A: []int64{cfg["sub_first"]}}, true
 		}
 	}
 
+	crashAtArg := int64(0)
 	apply := func(op Op) *Violation {
 		rec.Stats.Inc("steps")
+		if imgTaken {
+			// the node died when the image was taken: only the image survives
+			imgTaken = false
+			if pl := DisarmFault(imgArmed); pl != nil && pl.YieldOnDelete {
+				rec.Stats.Inc("crash_while_rewinding")
+			}
+			imgArmed = ""
+			stop()
+			_ = CopyDBFiles(filepath.Join(imgDir, filepath.Base(storePath)), storePath)
+			_ = CopyDBFiles(filepath.Join(imgDir, filepath.Base(rdPath)), rdPath)
+			crashed = true
+			rec.Stats.Inc("crash_restart")
+			rec.Stats.Inc("crash_at_statement_image")
+			if v := start(crashAtArg == 1); v != nil {
+				return v
+			}
+			go node.syncer.Start(node.ctx)
+			w.Quiesce()
+			// what was processed after the instant of the crash never happened
+			if cur, err := stored(); err == nil {
+				prevStored = cur
+			}
+			// blocks the dead incarnation had handed to the detector but not yet committed to its store count as
+			// "processed" for the never-rewound clause: their replacement justifies a rewind
+			if db, err := sql.Open("sqlite3", "file:"+rdPath+"?mode=ro"); err == nil {
+				if rows, err := db.Query("SELECT num, hash FROM tracked_block"); err == nil {
+					for rows.Next() {
+						var n uint64
+						var h string
+						if rows.Scan(&n, &h) == nil {
+							trackedAtCrash = append(trackedAtCrash, storedBlock{Num: n, Hash: common.HexToHash(h)})
+						}
+					}
+					rows.Close()
+				}
+				db.Close()
+			}
+			rec.Step("XI")
+		}
 		switch op.K {
 		case "mine":
 			r := NewRand(uint64(op.Arg(0)))
@@ -348,7 +438,22 @@ func runC06(tr *Trace, sc *Script, rec *Recorder, scratch string) *Violation {
 		case "time":
 			w.Advance(time.Duration(op.Arg(0)) * time.Millisecond)
 			rec.Step("T")
+		case "crashat":
+			if imgArmed != "" {
+				break
+			}
+			imgArmed = storePath
+			if op.Arg(0) == 1 {
+				imgArmed = rdPath
+			}
+			crashAtArg = op.Arg(2)
+			ArmFault(imgArmed, &FaultPlan{YieldAt: int(op.Arg(1)), Yield: takeImage, YieldOnDelete: op.Arg(0) == 2})
+			rec.Step("XA")
 		case "crash":
+			if imgArmed != "" {
+				DisarmFault(imgArmed)
+				imgArmed, imgTaken = "", false
+			}
 			stop()
 			crashed = true
 			rec.Stats.Inc("crash_restart")
@@ -369,7 +474,11 @@ func runC06(tr *Trace, sc *Script, rec *Recorder, scratch string) *Violation {
 		if v := checkStored("after " + op.String()); v != nil {
 			return v
 		}
+		pl := DisarmFault(storePath)
 		lp, _ := node.store.LastProcessed()
+		if pl != nil {
+			ArmFault(storePath, pl)
+		}
 		rec.Event("after %s: parked=[%s] lp=%d stored=%d head=%d fin=%d safe=%d halted=%v", op, w.ParkedDigest(), lp, len(prevStored), chain.HeadNum(), chain.Finalized, chain.Safe, node.store.IsHalted())
 		rec.State(fmt.Sprintf("%d:%d:%d:%s", int64(chain.HeadNum())-int64(lp), chain.HeadNum()-floor(), len(w.Parked()), w.ParkedDigest()))
 		return nil
@@ -468,7 +577,9 @@ func runC06(tr *Trace, sc *Script, rec *Recorder, scratch string) *Violation {
 			if firstBad != 0 {
 				if db, err := sql.Open("sqlite3", "file:"+rdPath+"?mode=ro"); err == nil {
 					var n int
-					if db.QueryRow("SELECT COUNT(*) FROM reorg_event WHERE from_block <= ? AND to_block >= ?", firstBad, firstBad).Scan(&n) == nil && n > 0 {
+					// ... detected by the RUNNING incarnation: a detection made before the last restart is not waiting in
+					// notifySubscriber any more (that would be a different defect)
+					if db.QueryRow("SELECT COUNT(*) FROM reorg_event WHERE from_block <= ? AND to_block >= ? AND rowid > ?", firstBad, firstBad, reorgEventsAtStart).Scan(&n) == nil && n > 0 {
 						sig = "c06/reorg-detected-but-never-taken-by-driver"
 					}
 					// second recorded mechanism: the block number of a stored, replaced block was delivered again
